@@ -127,20 +127,25 @@ class Mxl(Stream):
                 if in_range(sc):
                     break
                 sc = draw(i)
-            yield {"score": sc}
+            case = {"score": sc}
+            if i % 25 in (0, 1):
+                case["xml"] = True        # also written to a file (every case in the thorough tier); i % 25 == 0 are cases with zero-length elements
+            yield case
 
     def impl(self, case):
         def f():
             sc = sg.mk_rscore(case["score"])
             m = sc.to_music21()
             out = {"voices": read_voices(m, list(sc.instruments)), "names": list(sc.instruments), "dur": F(sc.duration)}
-            if os.environ.get("VERIF_TIER") == "thorough":
+            if os.environ.get("VERIF_TIER") == "thorough" or case.get("xml"):
                 import music21
                 fd, path = tempfile.mkstemp(suffix=".musicxml", dir=core.BUILD); os.close(fd)
                 try:
                     m.write("musicxml", path)
                     back = music21.converter.parse(path)
                     out["xml_pitches"] = sorted(int(n.pitch.midi) for n in back.recurse().notes if n.isNote)
+                except Exception as e:
+                    out["xml_error"] = f"{type(e).__name__}: {e}"[:200]
                 finally:
                     os.remove(path)
             return out
@@ -174,6 +179,11 @@ class Mxl(Stream):
             end = sum((e[2] for e in evs), F(0))
             if end != r["dur"] or any(a[1] + a[2] != b[1] for a, b in zip(evs, evs[1:])):
                 return {"sig": "mxl-voice-length", "msg": f"part {nm}: voice lasts {end}, score {r['dur']}"}
+        if "xml_error" in r:
+            # the music21 object exists; writing it to a file failed
+            if any(F(n["dur"]) == 0 for c in case["score"] for _, notes in c["parts"] for n in notes):
+                return {"sig": "musicxml-file-raises:zero-length-element", "msg": r["xml_error"]}
+            return {"sig": "musicxml-file-raises", "msg": r["xml_error"]}
         if "xml_pitches" in r:
             allp = sorted(60 + p for evs in want.values() for p, o, d, v in evs)
             if len(r["xml_pitches"]) < len(allp) or sorted(set(r["xml_pitches"])) != sorted(set(allp)):
